@@ -118,8 +118,8 @@ def _walk(rnd, npl, nsamp, k):
 def _multi(rnd):
     npl = rnd.randint(2, 5)
     so = [[rnd.randrange(3)] for _ in range(npl)]
-    if rnd.random() < 0.6:
-        so[rnd.randrange(npl)] = [0, 1]
+    if rnd.random() < 0.7:
+        so[rnd.randrange(npl)] = rnd.choice([[0, 1], [0, 1, 0], [1, 0, 0, 1], [2, 0, 2]])    # mixed plates, also with equal first and last rows
     ob = [False] * npl
     scr = _screen(so, ob, rnd)
     rem = sorted(scr.plates, key=lambda p: p.plate_id)
